@@ -170,6 +170,9 @@ class Constructor:
             return isinstance(obj, bool)
         elif type_ is Any:
             return True
+        elif type_ is None:
+            # an annotation of None means NoneType
+            return obj is None
         else:
             return isinstance(obj, type_)
 
